@@ -6,7 +6,15 @@
 //!
 //! Real layer ids: 0 bulkhead, 1 ratelimiter, 2 circuitbreaker, 3 retry, 4 timelimiter (cancel mode),
 //! 5 cache, 6 fallback, 7 hedge, 8 reconnect, 9 adaptive, 10 coalesce, 11 executor, 12 chaos,
-//! 13 circuitbreaker.with_fallback, 14 timelimiter (non-cancelling mode).
+//! 13 circuitbreaker.with_fallback, 14 timelimiter (non-cancelling mode), 15 retry with zero backoff,
+//! 16 circuitbreaker that HAS BEEN OPEN: tripped with force_open() at construction, wait_duration_in_open
+//!    5 ms, the harness advances virtual time by 6 ms before the client's first poll_ready, so the first
+//!    call that reaches the breaker is the half-open trial call (Open -> HalfOpen happens lazily inside
+//!    call()); with permitted_calls_in_half_open = 1 a successful trial closes the breaker,
+//! 17 the same for circuitbreaker.with_fallback,
+//! 18 circuitbreaker that is Open whenever the client polls it ready and is closed with force_closed()
+//!    between the client's poll_ready and call (re-opened with force_open() after every request),
+//! 19 the same for circuitbreaker.with_fallback, closed with reset().
 //!
 //! mode 1: [1; n; layer ids (outermost first); k; nreq; oracle entries (0 Ready 1 Pending 2 Err)...]
 //!   -> per request a code (0 called, 1 readiness error at poll_ready, 2 readiness error inside the
@@ -23,6 +31,7 @@
 //! kind LAYER) and a `tower::util::BoxCloneService` (uniform type for run-time stacks). Both
 //! forward poll_ready/call to the very instance they hold.
 use futures::future::BoxFuture;
+use futures::FutureExt;
 use std::collections::{HashMap, VecDeque};
 use std::fmt;
 use std::panic::{catch_unwind, AssertUnwindSafe};
@@ -118,15 +127,46 @@ impl Lst {
     }
 }
 
+type Hook = Box<dyn Fn() + Send>;
+
+/// things the harness does to a layer from outside, around the client's steps
+#[derive(Clone, Default)]
+struct Hooks {
+    /// between the client's successful poll_ready and its call
+    pre_call: Arc<Mutex<Vec<Hook>>>,
+    /// after the request has completed
+    post: Arc<Mutex<Vec<Hook>>>,
+}
+
+impl Hooks {
+    fn run(v: &Arc<Mutex<Vec<Hook>>>) {
+        for h in v.lock().unwrap().iter() {
+            h();
+        }
+    }
+}
+
 struct Cfg {
     mode: i128,
     k: usize,
     lst: Option<Lst>,
     keys: Arc<AtomicU64>,
+    hooks: Hooks,
+}
+
+impl Cfg {
+    fn new(mode: i128, k: usize, lst: Option<Lst>) -> Self {
+        Cfg { mode, k, lst, keys: Arc::new(AtomicU64::new(0)), hooks: Hooks::default() }
+    }
 }
 
 fn has_listeners(id: i128) -> bool {
-    matches!(id, 0 | 1 | 2 | 3 | 4 | 5 | 6 | 7 | 12 | 13 | 14)
+    matches!(id, 0 | 1 | 2 | 3 | 4 | 5 | 6 | 7 | 12 | 13 | 14 | 15)
+}
+
+/// breaker variants that start Open and whose open period has to elapse before the first request
+fn pre_tripped(id: i128) -> bool {
+    id == 16 || id == 17
 }
 
 type RErr = <ReconnectService<Bx> as Service<i128>>::Error;
@@ -170,7 +210,7 @@ fn wrap(id: i128, inner: Bx, c: &Cfg) -> Bx {
                 RateLimiterServiceError::RateLimited => made(1, 1),
             }))
         }
-        2 | 13 => {
+        2 | 13 | 16 | 17 | 18 | 19 => {
             let mut b = CircuitBreakerLayer::builder()
                 .failure_rate_threshold(0.5)
                 .sliding_window_size(if m2 { 4 } else { 100 })
@@ -192,12 +232,35 @@ fn wrap(id: i128, inner: Bx, c: &Cfg) -> Bx {
                 CircuitBreakerError::OpenCircuit => made(2, 1),
             };
             let cb = b.build().layer(inner);
-            if id == 13 {
+            // the control methods only take the (uncontended) circuit lock: they complete at once
+            if id >= 16 {
+                cb.force_open().now_or_never().expect("force_open");
+            }
+            if id == 13 || id == 17 || id == 19 {
                 let svc = cb.with_fallback(|req: i128| -> BoxFuture<'static, Result<i128, E>> {
                     Box::pin(async move { Ok(-4242 - req) })
                 });
+                if id == 19 {
+                    // a handle on the same circuit (the clone's inner instance is never used)
+                    let (h1, h2) = (svc.clone(), svc.clone());
+                    c.hooks.pre_call.lock().unwrap().push(Box::new(move || {
+                        h1.reset().now_or_never().expect("reset");
+                    }));
+                    c.hooks.post.lock().unwrap().push(Box::new(move || {
+                        h2.force_open().now_or_never().expect("force_open");
+                    }));
+                }
                 bx(MapErr::new(svc, conv))
             } else {
+                if id == 18 {
+                    let (h1, h2) = (cb.clone(), cb.clone());
+                    c.hooks.pre_call.lock().unwrap().push(Box::new(move || {
+                        h1.force_closed().now_or_never().expect("force_closed");
+                    }));
+                    c.hooks.post.lock().unwrap().push(Box::new(move || {
+                        h2.force_open().now_or_never().expect("force_open");
+                    }));
+                }
                 bx(MapErr::new(cb, conv))
             }
         }
@@ -483,7 +546,13 @@ enum Outcome {
 
 /// poll_ready on the one long-lived top-level instance until Ready (at most `fuel` Pending
 /// answers), then call and drive the returned future to completion
-async fn request(svc: &mut Bx, req: i128, fuel: usize) -> Outcome {
+async fn request(svc: &mut Bx, req: i128, fuel: usize, hooks: &Hooks) -> Outcome {
+    let out = request_inner(svc, req, fuel, hooks).await;
+    Hooks::run(&hooks.post);
+    out
+}
+
+async fn request_inner(svc: &mut Bx, req: i128, fuel: usize, hooks: &Hooks) -> Outcome {
     let flag = Arc::new(Flag(AtomicBool::new(false)));
     let w = Waker::from(flag.clone());
     let mut ready = false;
@@ -508,6 +577,7 @@ async fn request(svc: &mut Bx, req: i128, fuel: usize) -> Outcome {
     if !ready {
         return Outcome::NeverReady;
     }
+    Hooks::run(&hooks.pre_call);
     let fut = match catch_unwind(AssertUnwindSafe(|| svc.call(req))) {
         Ok(f) => f,
         Err(_) => return Outcome::Panic,
@@ -552,7 +622,10 @@ fn run_protocol(s: &[i128]) -> Vec<i128> {
     rt.block_on(async move {
         // hedged attempts all succeed (hedge runs them in parallel); for retry / reconnect the
         // first k attempts of every request fail
-        let kfail = if ids.contains(&7) { 0 } else { k };
+        // (a pre-tripped breaker needs its half-open trial call to succeed: with no retrying layer
+        // in the stack nothing fails)
+        let retrying = ids.iter().any(|i| matches!(*i, 3 | 8 | 15));
+        let kfail = if ids.contains(&7) || (ids.iter().any(|i| pre_tripped(*i)) && !retrying) { 0 } else { k };
         let sh = Arc::new(Mutex::new(StrictState {
             oracle,
             log: Vec::new(),
@@ -561,11 +634,14 @@ fn run_protocol(s: &[i128]) -> Vec<i128> {
             kfail,
             attempts: HashMap::new(),
         }));
-        let cfg = Cfg { mode: 1, k, lst: None, keys: Arc::new(AtomicU64::new(0)) };
+        let cfg = Cfg::new(1, k, None);
         let mut svc = stack(&ids, bx(Strict { sh: sh.clone(), id: 0 }), &cfg);
+        if ids.iter().any(|i| pre_tripped(*i)) {
+            advance_ms(6).await; // past wait_duration_in_open
+        }
         let mut tr = Vec::new();
         for j in 1..=nreq {
-            let code = match request(&mut svc, j, 8).await {
+            let code = match request(&mut svc, j, 8, &cfg.hooks).await {
                 Outcome::Ok(_) => 0,
                 Outcome::Err(e) => {
                     if e.kind == READY {
@@ -619,9 +695,12 @@ fn run_transparent(s: &[i128]) -> Vec<i128> {
             2 => bx(tower::limit::ConcurrencyLimit::new(scripted, 2)),
             _ => bx(scripted),
         };
-        let cfg = Cfg { mode: 0, k: 0, lst: None, keys: Arc::new(AtomicU64::new(0)) };
+        let cfg = Cfg::new(0, 0, None);
         let mut svc = stack(&ids, bottom, &cfg);
         settle().await;
+        if ids.iter().any(|i| pre_tripped(*i)) {
+            advance_ms(6).await; // past wait_duration_in_open
+        }
         let mut tr = Vec::new();
         for (req, okind, oval) in reqs {
             {
@@ -630,7 +709,7 @@ fn run_transparent(s: &[i128]) -> Vec<i128> {
                 g.oval = oval;
                 g.calls.clear();
             }
-            let out = request(&mut svc, req, 64).await;
+            let out = request(&mut svc, req, 64, &cfg.hooks).await;
             settle().await;
             let (kind, payload) = match out {
                 Outcome::Ok(v) => (0, v),
@@ -660,7 +739,7 @@ fn listener_run(id: i128, nl: usize, mask: i128, okinds: &[i128]) -> Vec<(Outcom
     rt.block_on(async move {
         let st = Arc::new(Mutex::new(ScriptState::default()));
         let lst = Lst::new(nl, mask);
-        let cfg = Cfg { mode: 2, k: 0, lst: Some(lst.clone()), keys: Arc::new(AtomicU64::new(0)) };
+        let cfg = Cfg::new(2, 0, Some(lst.clone()));
         let mut svc = wrap(id, bx(Scripted(st.clone())), &cfg);
         let mut out = Vec::new();
         for (j, ok) in okinds.iter().enumerate() {
@@ -671,7 +750,7 @@ fn listener_run(id: i128, nl: usize, mask: i128, okinds: &[i128]) -> Vec<(Outcom
                 g.oval = j * 10;
                 g.calls.clear();
             }
-            let o = request(&mut svc, j, 64).await;
+            let o = request(&mut svc, j, 64, &cfg.hooks).await;
             settle().await;
             out.push((o, lst.snapshot()));
         }
